@@ -18,11 +18,11 @@ structure ItRel (xs : List Nat) (c : LSeq.Cursor) (it : Iter) : Prop where
   pos : ∀ k, c.cur = some k → c.pos = k + 1
   prv : it.prev = match c.cur with | some k => pred k | none => pred c.pos
 
-theorem iterInit_rel (xs : List Nat) : ItRel xs LSeq.itNew (iterInit (ofList xs)) :=
-  ⟨rfl, ofList_head_ptrAt xs, rfl, Nat.zero_le _, (by intro k h; cases h), rfl⟩
+theorem iterInit_rel (xs : List Nat) : ItRel xs LSeq.itNew (iterInit (ofList t xs)) :=
+  ⟨rfl, ofList_head_ptrAt (t := t) xs, rfl, Nat.zero_le _, (by intro k h; cases h), rfl⟩
 
 theorem iterNext_ofList (xs : List Nat) (c : LSeq.Cursor) (it : Iter) (m : Mem) (h : ItRel xs c it) :
-    ∃ it', iterNext (ofList xs) it m = ((LSeq.itNext xs c).1, (LSeq.itNext xs c).2.1, it', m) ∧
+    ∃ it', iterNext (ofList t xs) it m = ((LSeq.itNext xs c).1, (LSeq.itNext xs c).2.1, it', m) ∧
       ItRel xs (LSeq.itNext xs c).2.2 it' := by
   unfold iterNext LSeq.itNext
   by_cases hp : c.pos < xs.length
@@ -46,8 +46,8 @@ theorem iterIndex_rel (xs : List Nat) (c : LSeq.Cursor) (it : Iter) (h : ItRel x
     iterIndex it = LSeq.itIndex c := by simp [iterIndex, LSeq.itIndex, wdec, h.idx]
 
 theorem iterReplace_ofList (xs : List Nat) (c : LSeq.Cursor) (it : Iter) (x : Nat) (m : Mem) (h : ItRel xs c it) :
-    iterReplace (ofList xs) it x m =
-      ((LSeq.itReplace xs c x).1, (LSeq.itReplace xs c x).2.1, ofList (LSeq.itReplace xs c x).2.2, m) ∧
+    iterReplace (ofList t xs) it x m =
+      ((LSeq.itReplace xs c x).1, (LSeq.itReplace xs c x).2.1, ofList t (LSeq.itReplace xs c x).2.2, m) ∧
     ItRel (LSeq.itReplace xs c x).2.2 c it := by
   unfold iterReplace LSeq.itReplace
   rw [h.cur]
@@ -62,9 +62,9 @@ theorem iterReplace_ofList (xs : List Nat) (c : LSeq.Cursor) (it : Iter) (x : Na
       exact ⟨h.idx, by simp [h.nxt], h.cur, by simp [h.le], h.pos, h.prv⟩
 
 theorem iterRemove_ofList (xs : List Nat) (c : LSeq.Cursor) (it : Iter) (m : Mem) (h : ItRel xs c it) :
-    ∃ it', iterRemove (ofList xs) it m =
-      ((LSeq.itRemove xs c).1, (LSeq.itRemove xs c).2.1, ofList (LSeq.itRemove xs c).2.2.1, it',
-       if (LSeq.itRemove xs c).1 = .ok then m.free else m) ∧
+    ∃ it', iterRemove (ofList t xs) it m =
+      ((LSeq.itRemove xs c).1, (LSeq.itRemove xs c).2.1, ofList t (LSeq.itRemove xs c).2.2.1, it',
+       if (LSeq.itRemove xs c).1 = .ok then (m.freeT t) else m) ∧
     ItRel (LSeq.itRemove xs c).2.2.1 (LSeq.itRemove xs c).2.2.2 it' := by
   unfold iterRemove LSeq.itRemove
   rw [h.cur]
@@ -85,8 +85,8 @@ theorem iterRemove_ofList (xs : List Nat) (c : LSeq.Cursor) (it : Iter) (m : Mem
 
 theorem iterAdd_ofList (xs : List Nat) (c : LSeq.Cursor) (it : Iter) (x k : Nat) (m : Mem) (h : ItRel xs c it)
     (hc : c.cur = some k) :
-    ∃ it', iterAdd (ofList xs) it x m =
-      (if m.alloc.1 then (.ok, ofList (LSeq.itAdd true xs c x).1, it', m.alloc.2) else (.errAlloc, ofList xs, it, m.alloc.2)) ∧
+    ∃ it', iterAdd (ofList t xs) it x m =
+      (if (m.allocT t).1 then (.ok, ofList t (LSeq.itAdd true xs c x).1, it', (m.allocT t).2) else (.errAlloc, ofList t xs, it, (m.allocT t).2)) ∧
     ItRel (LSeq.itAdd true xs c x).1 (LSeq.itAdd true xs c x).2 it' := by
   unfold iterAdd LSeq.itAdd
   have hpos := h.pos k hc
@@ -94,7 +94,8 @@ theorem iterAdd_ofList (xs : List Nat) (c : LSeq.Cursor) (it : Iter) (x k : Nat)
   have h0 : xs.length ≠ 0 := by omega
   rw [h.cur, hc]
   refine ⟨{ index := it.index + 1, prev := some k, current := some (k + 1), next := it.next.shiftIns (k + 1) 1 }, ?_, ?_⟩
-  · by_cases ha : m.alloc.1 = true
+  · (try simp only [ofList_triple])
+    by_cases ha : (m.allocT t).1 = true
     · simp only [ha, Bool.not_true, Bool.false_eq_true, if_false, if_true, ofList_nodes, Ptr.valid, hk, decide_true,
         Mem.check_true, Ptr.pos, Option.getD_some, ofList_size, h.idx, hpos]
       congr 1; congr 1
@@ -124,11 +125,11 @@ structure ZipRel (xs ys : List Nat) (c : LSeq.Cursor) (z : ZipIter) : Prop where
   prv1 : z.prev1 = match c.cur with | some k => pred k | none => pred c.pos
   prv2 : z.prev2 = match c.cur with | some k => pred k | none => pred c.pos
 
-theorem zipInit_rel (xs ys : List Nat) : ZipRel xs ys LSeq.itNew (zipInit (ofList xs) (ofList ys)) :=
-  ⟨rfl, ofList_head_ptrAt xs, ofList_head_ptrAt ys, rfl, rfl, Nat.zero_le _, Nat.zero_le _, (by intro k h; cases h), rfl, rfl⟩
+theorem zipInit_rel (xs ys : List Nat) : ZipRel xs ys LSeq.itNew (zipInit (ofList t xs) (ofList t2 ys)) :=
+  ⟨rfl, ofList_head_ptrAt (t := t) xs, ofList_head_ptrAt (t := t2) ys, rfl, rfl, Nat.zero_le _, Nat.zero_le _, (by intro k h; cases h), rfl, rfl⟩
 
 theorem zipNext_ofList (xs ys : List Nat) (c : LSeq.Cursor) (z : ZipIter) (m : Mem) (h : ZipRel xs ys c z) :
-    ∃ z', zipNext (ofList xs) (ofList ys) z m = ((LSeq.zitNext xs ys c).1, (LSeq.zitNext xs ys c).2.1, z', m) ∧
+    ∃ z', zipNext (ofList t xs) (ofList t2 ys) z m = ((LSeq.zitNext xs ys c).1, (LSeq.zitNext xs ys c).2.1, z', m) ∧
       ZipRel xs ys (LSeq.zitNext xs ys c).2.2 z' := by
   unfold zipNext LSeq.zitNext
   by_cases hp : c.pos < xs.length ∧ c.pos < ys.length
@@ -168,9 +169,9 @@ theorem zipIndex_rel (xs ys : List Nat) (c : LSeq.Cursor) (z : ZipIter) (h : Zip
 
 theorem zipReplace_ofList (xs ys : List Nat) (c : LSeq.Cursor) (z : ZipIter) (x1 x2 : Nat) (m : Mem)
     (h : ZipRel xs ys c z) :
-    zipReplace (ofList xs) (ofList ys) z x1 x2 m =
+    zipReplace (ofList t xs) (ofList t2 ys) z x1 x2 m =
       ((LSeq.zitReplace xs ys c x1 x2).1, (LSeq.zitReplace xs ys c x1 x2).2.1,
-       ofList (LSeq.zitReplace xs ys c x1 x2).2.2.1, ofList (LSeq.zitReplace xs ys c x1 x2).2.2.2, m) ∧
+       ofList t (LSeq.zitReplace xs ys c x1 x2).2.2.1, ofList t2 (LSeq.zitReplace xs ys c x1 x2).2.2.2, m) ∧
     ZipRel (LSeq.zitReplace xs ys c x1 x2).2.2.1 (LSeq.zitReplace xs ys c x1 x2).2.2.2 c z := by
   unfold zipReplace LSeq.zitReplace
   rw [h.cur1, h.cur2]
@@ -187,10 +188,10 @@ theorem zipReplace_ofList (xs ys : List Nat) (c : LSeq.Cursor) (z : ZipIter) (x1
       exact ⟨h.idx, by simp [h.nxt1], by simp [h.nxt2], h.cur1, h.cur2, by simp [h.le1], by simp [h.le2], h.pos, h.prv1, h.prv2⟩
 
 theorem zipRemove_ofList (xs ys : List Nat) (c : LSeq.Cursor) (z : ZipIter) (m : Mem) (h : ZipRel xs ys c z) :
-    ∃ z', zipRemove (ofList xs) (ofList ys) z m =
-      ((LSeq.zitRemove xs ys c).1, (LSeq.zitRemove xs ys c).2.1, ofList (LSeq.zitRemove xs ys c).2.2.1,
-       ofList (LSeq.zitRemove xs ys c).2.2.2.1, z',
-       if (LSeq.zitRemove xs ys c).1 = .ok then m.free.free else m) ∧
+    ∃ z', zipRemove (ofList t xs) (ofList t2 ys) z m =
+      ((LSeq.zitRemove xs ys c).1, (LSeq.zitRemove xs ys c).2.1, ofList t (LSeq.zitRemove xs ys c).2.2.1,
+       ofList t2 (LSeq.zitRemove xs ys c).2.2.2.1, z',
+       if (LSeq.zitRemove xs ys c).1 = .ok then ((m.freeT t).freeT t2) else m) ∧
     ZipRel (LSeq.zitRemove xs ys c).2.2.1 (LSeq.zitRemove xs ys c).2.2.2.1 (LSeq.zitRemove xs ys c).2.2.2.2 z' := by
   unfold zipRemove LSeq.zitRemove
   rw [h.cur1, h.cur2]
@@ -217,12 +218,12 @@ theorem zipRemove_ofList (xs ys : List Nat) (c : LSeq.Cursor) (z : ZipIter) (m :
 
 theorem zipAdd_ofList (xs ys : List Nat) (c : LSeq.Cursor) (z : ZipIter) (x1 x2 k : Nat) (m : Mem)
     (h : ZipRel xs ys c z) (hc : c.cur = some k) :
-    ∃ z', zipAdd (ofList xs) (ofList ys) z x1 x2 m =
-      (if m.alloc.1 then
-         (if m.alloc.2.alloc.1 then
-            (.ok, ofList (LSeq.zitAdd true xs ys c x1 x2).1, ofList (LSeq.zitAdd true xs ys c x1 x2).2.1, z', m.alloc.2.alloc.2)
-          else (.errAlloc, ofList xs, ofList ys, z, m.alloc.2.alloc.2.free))
-       else (.errAlloc, ofList xs, ofList ys, z, m.alloc.2)) ∧
+    ∃ z', zipAdd (ofList t xs) (ofList t2 ys) z x1 x2 m =
+      (if (m.allocT t).1 then
+         (if ((m.allocT t).2.allocT t2).1 then
+            (.ok, ofList t (LSeq.zitAdd true xs ys c x1 x2).1, ofList t2 (LSeq.zitAdd true xs ys c x1 x2).2.1, z', ((m.allocT t).2.allocT t2).2)
+          else (.errAlloc, ofList t xs, ofList t2 ys, z, (((m.allocT t).2.allocT t2).2.freeT t)))
+       else (.errAlloc, ofList t xs, ofList t2 ys, z, (m.allocT t).2)) ∧
     ZipRel (LSeq.zitAdd true xs ys c x1 x2).1 (LSeq.zitAdd true xs ys c x1 x2).2.1 (LSeq.zitAdd true xs ys c x1 x2).2.2 z' := by
   unfold zipAdd LSeq.zitAdd
   have hpos := h.pos k hc
@@ -233,8 +234,9 @@ theorem zipAdd_ofList (xs ys : List Nat) (c : LSeq.Cursor) (z : ZipIter) (x1 x2 
   rw [h.cur1, h.cur2, hc]
   refine ⟨{ index := z.index + 1, prev1 := some k, prev2 := some k, cur1 := some (k + 1), cur2 := some (k + 1),
             next1 := z.next1.shiftIns (k + 1) 1, next2 := z.next2.shiftIns (k + 1) 1 }, ?_, ?_⟩
-  · by_cases ha : m.alloc.1 = true
-    · by_cases hb : m.alloc.2.alloc.1 = true
+  · (try simp only [ofList_triple])
+    by_cases ha : (m.allocT t).1 = true
+    · by_cases hb : ((m.allocT t).2.allocT t2).1 = true
       · simp only [ha, hb, Bool.not_true, Bool.false_eq_true, if_false, if_true, ofList_nodes, Ptr.valid, hk1, hk2,
           decide_true, Bool.and_self, Mem.check_true, Ptr.pos, Option.getD_some, ofList_size, h.idx, hpos]
         congr 1; congr 1
